@@ -218,6 +218,32 @@ pub fn run_case(case: &Value) -> (Vec<F>, String) {
             }
             outcome = format!("rejected{}", rejected.len());
         }
+        "duplex-sizes" => {
+            // sends of very different sizes appended back to back: fed in frame order whatever
+            // the time it takes to fetch each payload
+            let ctx = w.ctx_a;
+            let sp = w.append_c("len.spawn", ctx, Some("lines | each {|x| $\"len:($x | str length)\"}"), Some(json!({"duplex": true})));
+            if w.wait(|f| f.topic == "len.start" && meta_str(f, "source_id") == Some(sp.id.to_string()), 20.0).is_none() {
+                fs.push(F { kind: "c18.duplex.nostart".into(), msg: format!("{}: no start", label) });
+            }
+            let sizes: Vec<usize> = case["sizes"].as_array().unwrap().iter().map(|v| v.as_u64().unwrap() as usize).collect();
+            let payloads: Vec<String> = sizes.iter().map(|n| format!("{}\n", "x".repeat(*n))).collect();
+            // contents first, so that the send frames themselves follow each other immediately
+            let hashes: Vec<_> = payloads.iter().map(|p| w.store.cas_insert_sync(p.as_bytes()).expect("cas")).collect();
+            for h in hashes {
+                w.store.append(Frame::builder("len.send", ctx).hash(h).build()).expect("harness append");
+            }
+            w.append_c("len.send", ctx, Some("last!\n"), None);
+            if w.wait(|f| f.topic == "len.recv" && w.content(f).as_deref() == Some("len:5"), 30.0).is_none() {
+                fs.push(F { kind: "c18.duplex.lost".into(), msg: format!("{}: the last send was never answered", label) });
+            }
+            let got: Vec<String> = w.snapshot().iter().filter(|f| f.topic == "len.recv" && meta_str(f, "source_id") == Some(sp.id.to_string())).filter_map(|f| w.content(f)).filter(|c| c != "len:5").collect();
+            let want: Vec<String> = sizes.iter().map(|n| format!("len:{}", n)).collect();
+            if got != want {
+                fs.push(F { kind: "c18.duplex.sequence".into(), msg: format!("{}: the instance produced {:?}; the sends of its context, in frame order, call for {:?}", label, got, want) });
+            }
+            outcome = format!("sizes{}", got.len());
+        }
         "duplex-restart" => {
             // a duplex pipeline that ends after 2 inputs: the restarted instance must not be fed
             // the sends of the previous lifecycle again
@@ -312,6 +338,9 @@ pub fn cases(thorough: bool) -> Vec<Value> {
     }
     v.push(json!({"kind": "errors"}));
     v.push(json!({"kind": "duplex-restart"}));
+    for sizes in [vec![4usize << 20, 1, 2, 3], vec![1, 4 << 20, 2, 3], vec![70000, 8192, 1, 8193]] {
+        v.push(json!({"kind": "duplex-sizes", "sizes": sizes}));
+    }
     for duplex in [false, true] {
         for rejects in [vec!["dup"], vec!["nocontent"], vec!["dup", "dup"], vec!["nocontent", "dup"]] {
             v.push(json!({"kind": "rejected", "duplex": duplex, "rejects": rejects}));
